@@ -107,6 +107,17 @@ def attr_profile(cls):
     return prof
 
 
+def attr_order(cls):
+    """attributes of self in the order of their first store (source order)"""
+    st = [x for x in ast.walk(cls) if isinstance(x, ast.Attribute) and isinstance(x.value, ast.Name) and x.value.id == "self" and isinstance(x.ctx, ast.Store)]
+    st.sort(key=lambda x: (x.lineno, x.col_offset))
+    out = []
+    for x in st:
+        if x.attr not in out:
+            out.append(x.attr)
+    return out
+
+
 def module_names(tree):
     out = []
     for n in tree.body:
@@ -178,6 +189,7 @@ def build_inventory(trees):
         for n in t.body:
             if isinstance(n, ast.ClassDef):
                 inv["attrs"][n.name] = attr_profile(n)
+                inv.setdefault("attr_order", {})[n.name] = attr_order(n)
                 inv["methods_of"][n.name] = [m.name for m in n.body if isinstance(m, ast.FunctionDef)]
     return inv
 
@@ -263,7 +275,16 @@ def _literal(v):
         return True
     if isinstance(v, ast.UnaryOp) and isinstance(v.op, ast.USub) and isinstance(v.operand, ast.Constant) and isinstance(v.operand.value, (int, float)):
         return True
+    # an immutable tuple of literals / enum members (`(_ComponentTypes.SOURCE, _ComponentTypes.SLOSS)`)
+    if isinstance(v, ast.Tuple) and v.elts and all(_literal(e) or _dotted(e) for e in v.elts):
+        return True
     return False
+
+
+def _dotted(e):
+    while isinstance(e, ast.Attribute):
+        e = e.value
+    return isinstance(e, ast.Name)
 
 
 def propagate_new_constants(trees, inv):
@@ -374,12 +395,23 @@ def detect_attr_renames(trees, inv):
                 inter = sum(min(p.get(k, 0), q.get(k, 0)) for k in ks)
                 union = sum(max(p.get(k, 0), q.get(k, 0)) for k in ks)
                 return inter / union if union else 0.0
+            done_m, done_n = set(), set()
             for m in missing:
                 row = sorted(((sim(want[m], have[n]), n) for n in new), reverse=True)
                 best, n = row[0]
                 second = row[1][0] if len(row) > 1 else 0.0
                 back = sorted((sim(want[m2], have[n]) for m2 in missing), reverse=True)
                 if best >= 0.6 and best - second >= 0.15 and back[0] == best:
+                    ren[(c.name, n)] = m
+                    done_m.add(m)
+                    done_n.add(n)
+            # attributes used in exactly the same places (x / fx of an interpolator) cannot be told apart by where they are used:
+            # when as many are missing as are new and every pairing is a good match, they are paired in the order of their first store
+            rest_m = [m for m in inv.get("attr_order", {}).get(c.name, []) if m in missing and m not in done_m]
+            rest_n = [n for n in attr_order(c) if n in new and n not in done_n]
+            if rest_m and len(rest_m) == len(rest_n) and len(rest_m) == len([m for m in missing if m not in done_m]) == len([n for n in new if n not in done_n]) \
+                    and all(sim(want[m], have[n]) >= 0.6 for m, n in zip(rest_m, rest_n)):
+                for m, n in zip(rest_m, rest_n):
                     ren[(c.name, n)] = m
     return ren
 
@@ -400,9 +432,22 @@ def apply_renames(trees, fren, aren):
         else:
             amap[new] = old
     fmap = {k: v for k, v in fmap.items() if v}
+    # the same new attribute name can stand for different old names in different classes (`_val` for `_fx` and for `_fxy`):
+    # inside its class an attribute of self is renamed per class; through other receivers only when the name is unambiguous
+    per_class = {}
+    for (cls, new), old in aren.items():
+        if new not in fmap:
+            per_class.setdefault(cls, {})[new] = old
     amap = {k: v for k, v in amap.items() if v and k not in fmap}
-    if not fmap and not amap:
+    if not fmap and not amap and not per_class:
         return {}
+    for mod, t in trees.items():
+        for c in t.body:
+            if isinstance(c, ast.ClassDef) and c.name in per_class:
+                mp = per_class[c.name]
+                for x in ast.walk(c):
+                    if isinstance(x, ast.Attribute) and isinstance(x.value, ast.Name) and x.value.id == "self" and x.attr in mp:
+                        x.attr = mp[x.attr]
     for mod, t in trees.items():
         for x in ast.walk(t):
             if isinstance(x, ast.FunctionDef) and x.name in fmap:
@@ -418,6 +463,9 @@ def apply_renames(trees, fren, aren):
                 x.name = fmap[x.name]
     out = dict(fmap)
     out.update(amap)
+    for cls, mp in per_class.items():
+        for n, o in mp.items():
+            out.setdefault("%s.%s" % (cls, n), o)
     return out
 
 
@@ -1260,8 +1308,23 @@ def scale_lines(fn):
     # a statement after an expansion on the same source line cannot exist (the call was a whole statement)
 
 
+def unwrap_bool_in_tests(tree):
+    """`if bool(x):` is `if x:` - also under `not`, `and`, `or`"""
+    def strip(e):
+        if isinstance(e, ast.Call) and isinstance(e.func, ast.Name) and e.func.id == "bool" and len(e.args) == 1 and not e.keywords:
+            return strip(e.args[0])
+        if isinstance(e, ast.UnaryOp) and isinstance(e.op, ast.Not):
+            e.operand = strip(e.operand)
+        elif isinstance(e, ast.BoolOp):
+            e.values = [strip(v) for v in e.values]
+        return e
+    for n in ast.walk(tree):
+        if isinstance(n, (ast.If, ast.While, ast.IfExp)):
+            n.test = strip(n.test)
+
+
 # ------------------------------------------------------------------------------------------------ driver
-def canonicalise(trees):
+def canonicalise(trees, specialise=True):
     """in place; -> notes (what was rewritten), for the evidence file"""
     inv = inventory()
     notes = []
@@ -1270,7 +1333,8 @@ def canonicalise(trees):
     if not inv:
         return notes
     propagate_new_constants(trees, inv)
-    notes += specialise_new_parameters(trees, inv)
+    if specialise:
+        notes += specialise_new_parameters(trees, inv)
     fren, news = detect_function_renames(trees, inv)
     aren = detect_attr_renames(trees, inv)
     applied = apply_renames(trees, fren, aren)
@@ -1284,6 +1348,9 @@ def canonicalise(trees):
         notes.append("inlined new helper %s into %s" % (h, c))
     notes += inline_new_aliases(trees, inv)
     notes += inline_new_values(trees, inv)
+    if notes:
+        for t in trees.values():
+            unwrap_bool_in_tests(t)
     for t in trees.values():
         ast.fix_missing_locations(t)
     return notes
